@@ -29,7 +29,17 @@ def check(m, run):
     rs.iv1(m, run, rs.GEOM, caches_filter=keep)
     run.floor('IV1.no-stale-cache', 150, 'geometry classes x entries x bounding box cache')
     from . import c12
-    c12.iv5(m, run, keep=lambda key: 'box' in key)     # a container recomputes its box from its elements on every read: no aggregate box cache
+    # a container's box follows its elements: decided by read / edit an element / read again on real containers (CB2); the rule that looks
+    # for an aggregate box cache filled from element state corroborates
+    from .. import skel_drivers as _sd
+    n_cb = len(run.obs)
+    try:
+        _sd.cb2(m, run)
+    except AnalysisError as ex:
+        run.error(str(ex))
+    cb_ok = len(run.obs) > n_cb and all(o.ok for o in run.obs[n_cb:])
+    with run.corroborating(cb_ok, 'CB2', rules=()):
+        c12.iv5(m, run, keep=lambda key: 'box' in key)
     ag7(m, run)
     funcs = c01.evaluator_funcs(m)
     rl.ly1_canonical(m, run, funcs)
@@ -58,6 +68,20 @@ def kd4(m, run):
 
 
 def al6(m, run):
+    # the bounding box scan is decided on points of every order type of the coordinates (BB2); the rule that reads the two update loops
+    # corroborates
+    from .. import skel_drivers as _sd
+    n0 = len(run.obs)
+    try:
+        _sd.bb2(m, run)
+    except AnalysisError as ex:
+        run.error(str(ex))
+    ok = len(run.obs) > n0 and all(o.ok for o in run.obs[n0:])
+    with run.corroborating(ok, 'BB2', rules=('AL6.bbox-scan',)):
+        _al6_syntactic(m, run)
+
+
+def _al6_syntactic(m, run):
     fi = m.func('utilities.evaluate_bounding_box')
     inits = {}
     for n in walk_no_nested(fi.node):
@@ -204,6 +228,19 @@ def ag7(m, run, rule='AG7.active-control-points'):
 
 
 def ln1(m, run):
+    # the polyline length is decided on labelled sample points with symbolic chords (LN2); the rule that reads the accumulation loop corroborates
+    from .. import skel_drivers as _sd
+    n0 = len(run.obs)
+    try:
+        _sd.ln2(m, run)
+    except AnalysisError as ex:
+        run.error(str(ex))
+    ok = len(run.obs) > n0 and all(o.ok for o in run.obs[n0:])
+    with run.corroborating(ok, 'LN2', rules=('LN1.polyline-length',)):
+        _ln1_syntactic(m, run)
+
+
+def _ln1_syntactic(m, run):
     fi = m.func('operations.length_curve')
     loops = [n for n in walk_no_nested(fi.node) if isinstance(n, ast.For)]
     ok = False
